@@ -109,8 +109,8 @@ def _operand_index(recv, var):
 
 def r2_ordinal(ctx, cfg='A'):
     ctx.set_rule('C11.R2', cfg)
-    P = ctx.progs[cfg]
-    f = P.fns.get(RT + '::dispatch_event')
+    from .dispatch import dispatch_iterations, HANDLE
+    f, its, form = dispatch_iterations(ctx, cfg)
     if not f:
         ctx.violation('anchor:dispatch_event', 'unresolved-anchor'); return
     ctx.touch(f)
@@ -128,15 +128,25 @@ def r2_ordinal(ctx, cfg='A'):
     ctx.check(ok_cnt and ok_tm and ok_recv, 'ordinal-and-time',
               "the limit is asked about the event's ordinal (events dispatched so far + 1) and its own timestamp", s.where(),
               {'limit': show(recv), 'ordinal': show(cnt), 'time': show(tm)})
-    # before increment, clock, handler
-    inc = [(b, i) for (b, i, st) in f.writes_to_field('itr')]
-    later = [(b, 'counter increment') for b, i in inc] + [(x.b, 'clock write') for x in f.calls_to('des::time::SimTime::set_now')] + \
-            [(x.b, 'handler') for x in f.calls() if x.callee == 'des::runtime::event::types::Event::handle']
-    ctx.floor('effects after the limit check', len(later), 3)
-    for b, what in later:
-        atoms = [a for _, a in f.guard_atoms(b)]
-        off = any(a[0] == 'bool' and a[1][0] == 'call' and a[1][1] == LIM + '::applies' and a[2] is False for a in atoms)
-        ctx.check(f.dominates(s.b, b) and off, 'check-before-%s' % what.split()[0], 'the %s happens only after the limit was evaluated and did not apply' % what, f.where(b))
+    # before increment, clock, handler — on every path of a dispatch step
+    n_eff = 0
+    for it in its:
+        ev = it.stream()
+        for i, e in enumerate(ev):
+            what = None
+            if e[0] == 'w' and e[2] == 'itr':
+                what = 'counter increment'
+            elif e[0] == 'c' and 'des::time::SimTime::set_now' in e[1].names():
+                what = 'clock write'
+            elif e[0] == 'c' and e[1].callee == HANDLE:
+                what = 'handler'
+            if not what:
+                continue
+            n_eff += 1
+            before = [x[1] for x in ev[:i] if x[0] == 'atom']
+            off = any(a and a[0] == 'bool' and a[1][0] == 'call' and a[1][1] == LIM + '::applies' and a[2] is False for a in before)
+            ctx.check(off, 'check-before-%s' % what.split()[0], 'the %s happens only after the limit was evaluated and did not apply' % what, it.where())
+    ctx.floor('effects after the limit check', n_eff, 3)
 
 
 def r3_finish(ctx, cfg='A'):
